@@ -56,3 +56,41 @@ extern "C" void h_bulk_transform_join() {
   if (n_val) for (int i = 0; i < N; ++i) VF_ASSERT(tcalls[i] == 1, "bulk_join completed with value but an index was skipped");
   if (stop_at == 0 || stop_at > N) VF_ASSERT(n_val == 1, "no stop requested but bulk_join did not complete with value");
 }
+// ---- execution policy advertised to the bulk source = meet of the transform's own policy and the downstream receiver's
+static int seen_policy = -1;     // 0 seq, 1 par, 2 unseq, 3 par_unseq
+template <typename P> static constexpr int pol_id() {
+  if constexpr (std::is_same_v<P, sequenced_policy>) return 0; else if constexpr (std::is_same_v<P, parallel_policy>) return 1;
+  else if constexpr (std::is_same_v<P, unsequenced_policy>) return 2; else return 3; }
+struct policy_probe_source {     // many-sender that only records which policy its receiver advertises
+  template <template <typename...> class V, template <typename...> class T> using value_types = V<T<>>;
+  template <template <typename...> class V, template <typename...> class T> using next_types = V<T<int>>;
+  template <template <typename...> class V> using error_types = V<>;
+  static constexpr bool sends_done = true;
+  template <typename R> struct op { R r_;
+    void start() noexcept { seen_policy = pol_id<remove_cvref_t<decltype(get_execution_policy(r_))>>(); unifex::set_next(r_, 0); unifex::set_value(std::move(r_)); } };
+  template <typename R> op<remove_cvref_t<R>> connect(R&& r) && noexcept { return {(R&&)r}; }
+};
+template <typename P> struct prec2 {
+  void set_value() && noexcept { ++n_val; } template <typename E> void set_error(E&&) && noexcept {} void set_done() && noexcept {}
+  void set_next(int) & noexcept {}
+  friend constexpr P tag_invoke(tag_t<get_execution_policy>, const prec2&) noexcept { return {}; }
+};
+template <typename Own, typename Down> static void policy_case(int expect) {
+  auto op = connect(bulk_transform(policy_probe_source{}, [](int i) noexcept { return i; }, Own{}), prec2<Down>{});
+  start(op);
+  VF_ASSERT(seen_policy == expect, "bulk_transform advertised an execution policy that is not the meet of its own policy and the downstream receiver's");
+}
+extern "C" void h_bulk_policy() {
+  switch (vf_param(0)) {
+    case 0: policy_case<sequenced_policy, parallel_unsequenced_policy>(0); break;
+    case 1: policy_case<parallel_policy, parallel_unsequenced_policy>(1); break;
+    case 2: policy_case<unsequenced_policy, parallel_unsequenced_policy>(2); break;
+    case 3: policy_case<parallel_unsequenced_policy, parallel_unsequenced_policy>(3); break;
+    case 4: policy_case<parallel_unsequenced_policy, sequenced_policy>(0); break;
+    case 5: policy_case<parallel_unsequenced_policy, parallel_policy>(1); break;
+    case 6: policy_case<parallel_unsequenced_policy, unsequenced_policy>(2); break;
+    case 7: policy_case<sequenced_policy, sequenced_policy>(0); break;
+    case 8: policy_case<parallel_policy, unsequenced_policy>(0); break;
+    case 9: policy_case<unsequenced_policy, parallel_policy>(0); break;
+  }
+}
